@@ -1,10 +1,9 @@
 /* C06 / H06.glob: src/filter.c match_glob(pattern, string) == the textbook definition of wildcard matching:
  *   '*' matches any run of characters (including the empty run), '?' matches exactly one character, every
  *   other pattern byte matches itself (case-sensitive), and the whole string must be consumed.
- * ALL patterns of <= GL bytes and ALL strings of <= NL bytes (all byte values).  To keep the pointers of the
- * recursive real function concrete during symbolic execution the space is cut into shapes: (pattern length,
- * which pattern positions hold '*', string length) is enumerated concretely - every shape is checked in the
- * same run - and all the other bytes (including '?') are symbolic. */
+ * All patterns of <= GL bytes and strings of <= NL bytes (all byte values).  The recursion of the real function
+ * is bounded by the number of '*' (<= GL): the plan gives that bound and CBMC's recursion unwinding assertion
+ * proves it sufficient. */
 #include "verif.h"
 #include "src/filter.c"
 
@@ -21,10 +20,11 @@ static int ref_glob(const char *g, unsigned gl, const char *s, unsigned sl)
 {
 	unsigned char m[GL + 1][NL + 1];
 	int i, j;
-	for (i = (int) gl; i >= 0; --i) {
-		for (j = (int) sl; j >= 0; --j) {
+	for (i = GL; i >= 0; --i) {
+		for (j = NL; j >= 0; --j) {
 			int v;
-			if ((unsigned) i == gl) v = ((unsigned) j == sl);
+			if ((unsigned) i > gl || (unsigned) j > sl) v = 0;          /* outside the strings: unused */
+			else if ((unsigned) i == gl) v = ((unsigned) j == sl);
 			else if (g[i] == '*') v = m[i + 1][j] || ((unsigned) j < sl && m[i][j + 1]);
 			else if ((unsigned) j == sl) v = 0;
 			else v = (g[i] == '?' || g[i] == s[j]) && m[i + 1][j + 1];
@@ -34,39 +34,23 @@ static int ref_glob(const char *g, unsigned gl, const char *s, unsigned sl)
 	return m[0][0];
 }
 
-static u8 pat_b[GL], str_b[NL];         /* the symbolic bytes: pattern bytes that are not '*', string bytes */
-static unsigned n_match, n_nomatch, n_star_empty, n_backtrack;
-
-static void check_shape(unsigned gl, unsigned mask, unsigned sl)
+void harness(void)
 {
-	char g[GL + 1], s[NL + 1];
-	unsigned i;
+	INPUT_ARRAY(u8, pat, GL + 1); INPUT_ARRAY(u8, str, NL + 1);
+	static char g[GL + 1], s[NL + 1];
+	unsigned i, gl, sl;
 	int got, want;
-	for (i = 0; i < gl; ++i) g[i] = ((mask >> i) & 1) ? '*' : (char) pat_b[i];
-	g[gl] = '\0';
-	for (i = 0; i < sl; ++i) s[i] = (char) str_b[i];
-	s[sl] = '\0';
+	ASSUME(pat[GL] == 0 && str[NL] == 0);
+	for (i = 0; i <= GL; ++i) g[i] = (char) pat[i];
+	for (i = 0; i <= NL; ++i) s[i] = (char) str[i];
+	for (gl = 0; g[gl] != '\0'; ++gl) ;
+	for (sl = 0; s[sl] != '\0'; ++sl) ;
 	got = match_glob(g, s);
 	want = ref_glob(g, gl, s, sl);
 	CHECK((got != 0) == (want != 0), "C06: match_glob agrees with the definition of '*'/'?' matching");
-	if (got) ++n_match; else ++n_nomatch;
-	if (gl == 1 && mask == 1 && sl == 0 && got) ++n_star_empty;
-	/* "*x*y"-like pattern on a full-length string where the first x in the string is not the right one */
-	if (gl == GL && GL >= 4 && mask == 5 && sl == NL && NL >= 4 && got && s[0] == g[1] && s[1] != g[3] && s[2] == g[1]) ++n_backtrack;
-}
-
-void harness(void)
-{
-	INPUT_ARRAY(u8, pat, GL); INPUT_ARRAY(u8, str, NL);
-	unsigned gl, mask, sl, i;
-	for (i = 0; i < GL; ++i) { ASSUME(pat[i] != 0 && pat[i] != '*'); pat_b[i] = pat[i]; }
-	for (i = 0; i < NL; ++i) { ASSUME(str[i] != 0); str_b[i] = str[i]; }
-	for (gl = 0; gl <= GL; ++gl)
-		for (mask = 0; mask < (1u << gl); ++mask)
-			for (sl = 0; sl <= NL; ++sl)
-				check_shape(gl, mask, sl);
-	if (n_star_empty == 1) WITNESS("'*' matches the empty string");
-	if (n_backtrack == 1) WITNESS("second star has to skip a false start");
-	if (pat[0] == 'a' && str[0] == 'A' && n_match >= 1 && n_nomatch >= 1) WITNESS("case-sensitive: some shapes match, some do not");
+	if (gl == GL && sl == NL && GL >= 3 && NL >= 3 && g[0] == '*' && g[2] == '*' && g[1] != '*' && g[1] != '?' && got && s[0] != g[1]) WITNESS("*x*.. matches, first star takes a non-empty run");
+	if (gl == 1 && g[0] == '*' && sl == 0 && got) WITNESS("'*' matches the empty string");
+	if (gl == 2 && sl == 2 && g[0] == '?' && g[1] == 'a' && s[1] == 'A' && !got) WITNESS("case-sensitive");
+	if (gl == GL && sl == NL && g[0] == '*' && g[GL - 1] == '*' && g[1] == '*' && got) WITNESS("all-star prefix");
 	WITNESS("end");
 }
